@@ -159,17 +159,17 @@ MaxOfSet(S) == CHOOSE x \in S : \A y \in S : y <= x
 InferR(E) == IF E = {} THEN 0 ELSE 1 + MaxOfSet({e[1][1] : e \in E} \cup {e[2][1] : e \in E})
 InferC(E) == IF E = {} THEN 0 ELSE 1 + MaxOfSet({e[1][2] : e \in E} \cup {e[2][2] : e \in E})
 
-Parse(ck, toks) ==
-  LET rd == Read(ck, toks) IN
+ParseRd(rd) ==
   IF ~rd.ok THEN IllFormed
   ELSE MazeVal(rd.kind, InferR(rd.edges), InferC(rd.edges), rd.edges, rd.start, rd.end, rd.sol)
+Parse(ck, toks) == ParseRd(Read(ck, toks))
 
-\* toks \in Emit(ck, m), decided without enumerating Emit (usable on 20x20 mazes)
-InEmit(ck, m, toks) ==
-  LET rd == Read(ck, toks)  E == EdgesOf(m) IN
+\* toks \in Emit(ck, m), decided without enumerating Emit (usable on 20x20 mazes);  rd = Read(ck, toks), E = EdgesOf(m)
+InEmitRd(rd, m, E) ==
   /\ rd.ok /\ rd.kind = m.kind
   /\ rd.edges = E /\ rd.nent = Cardinality(E)
   /\ rd.start = m.start /\ rd.end = m.end /\ rd.sol = m.sol
+InEmit(ck, m, toks) == InEmitRd(Read(ck, toks), m, EdgesOf(m))
 
 \* ------------------------------------------------------------------ Equivalent
 FirstPos(toks, w) == LET S == {i \in 1..Len(toks) : toks[i] = w} IN IF S = {} THEN 0 ELSE CHOOSE i \in S : \A j \in S : i <= j
